@@ -433,6 +433,25 @@ func check(c Case, r *vh.R) {
 		}
 	}
 
+	// A consumer that retries after an error (or reads through bufio) must not be handed
+	// anything either: every octet EVER output has to be authenticated payload.
+	for extra := 0; extra < 4; extra++ {
+		dst := make([]byte, sizes[extra%len(sizes)]+1)
+		n, _ := dec.Read(dst)
+		if n < 0 || n > len(dst) {
+			r.Failf("bad-count", "Read(dst of %d) after the final error returned n=%d", len(dst), n)
+			return
+		}
+		if n > 0 {
+			r.Class("output-after-error-or-eof")
+			at := len(out)
+			out = append(out, dst[:n]...)
+			if !committed || len(out) > len(p) || !bytes.Equal(out[at:], p[at:len(out)]) {
+				r.Failf("unauthenticated-output-after-error", "%s: after reporting %v the decoder released %d more octets (%x) that are not authenticated payload", what(), final, n, trunc(dst[:n]))
+				return
+			}
+		}
+	}
 	if final == io.EOF {
 		if !committed {
 			r.Failf("clean-eof-unauthenticated", "%s: clean EOF although the digest %x is arbitrary (it does not commit to the empty payload)", what(), []byte(c.Digest))
